@@ -47,19 +47,99 @@ def plain_main():
         shutil.rmtree(d, ignore_errors=True)
 
 
+OVERRIDE_MAIN = '''package main
+
+import (
+	"bytes"
+	"crypto"
+	"crypto/sha256"
+	"crypto/sha512"
+	"fmt"
+	"math/big"
+	"os"
+
+	"github.com/bytemare/secp256k1"
+)
+
+// another package of the program re-registers SHA-256 (crypto.RegisterHash overwrites silently)
+func init() { crypto.RegisterHash(crypto.SHA256, sha512.New512_256) }
+
+func xmd(msg, dst []byte, n int) []byte {
+	dp := append(append([]byte{}, dst...), byte(len(dst)))
+	h := func(parts ...[]byte) []byte { s := sha256.New(); for _, p := range parts { s.Write(p) }; return s.Sum(nil) }
+	b0 := h(make([]byte, 64), msg, []byte{byte(n >> 8), byte(n)}, []byte{0}, dp)
+	bi := h(b0, []byte{1}, dp)
+	out := append([]byte{}, bi...)
+	for i := 2; len(out) < n; i++ {
+		x := make([]byte, 32)
+		for j := range x { x[j] = b0[j] ^ bi[j] }
+		bi = h(x, []byte{byte(i)}, dp)
+		out = append(out, bi...)
+	}
+	return out[:n]
+}
+
+func main() {
+	n, _ := new(big.Int).SetString("fffffffffffffffffffffffffffffffebaaedce6af48a03bbfd25e8cd0364141", 16)
+	dst := []byte("verif-override-main-dst")
+	want := make([]byte, 32)
+	new(big.Int).Mod(new(big.Int).SetBytes(xmd([]byte("m"), dst, 48)), n).FillBytes(want)
+	got := secp256k1.HashToScalar([]byte("m"), dst).Encode()
+	if !bytes.Equal(got, want) {
+		fmt.Printf("MISMATCH: HashToScalar = %x, RFC 9380 with SHA-256 gives %x\\n", got, want)
+		os.Exit(1)
+	}
+	fmt.Println("ok")
+}
+'''
+PLATFORMS = [[], ['GOARCH=riscv64'], ['GOARCH=ppc64le'], ['GOARCH=arm64', 'GOOS=darwin'], ['GOOS=windows'], ['CGO_ENABLED=0', 'GOFLAGS=-mod=mod -tags=purego']]
+
+
+def run_main(src, env_extra=()):
+    work = os.path.join(core.VERIF, 'work')
+    os.makedirs(work, exist_ok=True)
+    d = tempfile.mkdtemp(prefix='plainmain_', dir=work)
+    try:
+        open(os.path.join(d, 'go.mod'), 'w').write('module plainmain\n\ngo 1.22\n\nrequire github.com/bytemare/secp256k1 v0.0.0\n\nreplace github.com/bytemare/secp256k1 => %s\n' % core.REPO)
+        open(os.path.join(d, 'go.sum'), 'w').write('')
+        open(os.path.join(d, 'main.go'), 'w').write(src)
+        p = subprocess.run(['go', 'run', '.'], cwd=d, env=dict(core.GOENV, **dict(e.split('=', 1) for e in env_extra)), capture_output=True, text=True, timeout=300)
+        return p.returncode == 0, (p.stdout + p.stderr)[-600:]
+    finally:
+        shutil.rmtree(d, ignore_errors=True)
+
+
+def deps_have_sha256(env_extra):
+    p = subprocess.run(['go', 'list', '-deps', '.'], cwd=core.REPO, env=dict(core.GOENV, **dict(e.split('=', 1) for e in env_extra)), capture_output=True, text=True, timeout=300)
+    return 'crypto/sha256' in p.stdout.split(), (p.stdout[-200:] + p.stderr[-300:])
+
+
 def run(tier, seed):
     ck = Check('C17', tier, seed, level='other')
-    jobs = [{'id': 'reg%d' % f, 'harness': 'vh_hash', 'args': [f, 3, 16, 0], 'summaries': KS, 'hashmode': 'registry'} for f in FN]
-    runs = ck.absorb(core.symx(HARNESS, jobs))
+    runs = []
+    plats = PLATFORMS if tier == 'thorough' else PLATFORMS[:4]
+    for pi, env in enumerate(plats):
+        jobs = [{'id': 'reg%d_p%d' % (f, pi), 'harness': 'vh_hash', 'args': [f, 3, 16, 0], 'summaries': KS, 'hashmode': 'registry'} for f in (FN if pi == 0 else [2])]
+        rs = ck.absorb(core.symx(HARNESS, jobs, env=env))
+        for r in rs:
+            r.platform = ' '.join(env) or 'host'
+            r.env = env
+        runs += rs
     ck.extra['_runs'] = runs
     ck.trusted = ['go/ssa + symx translation', 'SMT solvers', 'the Go linker links exactly the import closure; crypto.RegisterHash calls happen in init functions with constant hash identifiers',
                   'a registered constructor returns a working hash.Hash (stub)']
     ck.assumptions = ['the rest of the program is arbitrary: it may or may not register SHA-256']
     ck.bounds = {'programs': 'all, abstracted to the Boolean other_package_registers_sha256', 'calls': 'HashToGroup, EncodeToGroup, HashToScalar on a 3-byte message and 16-byte DST (hash availability does not depend on contents)'}
     ck.extra['explanation'] = 'configuration quantifier turned into a solver variable; registry of the package\'s own import closure: %s' % (runs[0].d.get('registry') or 'no RegisterHash call found')
+    ck.bounds['build configurations'] = [' '.join(e) or 'host (linux/amd64)' for e in plats]
     bad = None
-    for f, r in zip(FN, runs):
-        tag = 'C17.' + FN[f]
+    override_dep = None
+    for r in runs:
+        f = int(r.id[3])
+        tag = 'C17.' + FN[f] + '.' + r.platform.replace(' ', ',')
+        alt = any(n['op'] == 'sha256alt' for n in r.nodes)
+        if not ck.ground(tag + '.own-hash', 'the digest function is the package\'s own SHA-256 even if another package re-registers crypto.SHA256 (no digest comes from an overriding registration)', not alt):
+            override_dep = (FN[f], r.platform)
         rets = [p for p in r.paths if p['end'] == 'return']
         oth = [p for p in r.paths if p['end'] != 'return']
         ck.ground(tag + '.returns', 'a returning path exists', len(rets) >= 1)
@@ -70,18 +150,34 @@ def run(tier, seed):
                            low.all() + '\n' + '\n'.join('(assert n%d)' % c for c in p['pc']), timeout=30)
             if res.status == 'sat':
                 m, _ = smt.get_model(low.all() + '\n' + '\n'.join('(assert n%d)' % c for c in p['pc']), [low.name(i) for i in low.done if r.nodes[i]['op'] == 'var'])
-                bad = (FN[f], p.get('panic'), m)
+                bad = (FN[f], p.get('panic'), m, r.env, r.platform)
         for p in rets:
             ck.prove('%s.reach%d' % (tag, p['id']), 'returning path reachable', low.all() + '\n' + '\n'.join('(assert n%d)' % c for c in p['pc']), expect='sat', timeout=30)
         uses = [fn for fn in r.functions if fn.startswith('(crypto.Hash).New')]
         ck.notes.append('%s: crypto.Hash.New executed from real SSA: %s; registry: %s' % (FN[f], bool(uses), r.d.get('registry')))
     if bad:
-        ok, out = plain_main()
-        path = ck.save_replay({'property': 'C17', 'kind': 'plain-main', 'program': MAIN, 'solver_model': {'other_package_registers_sha256': False}, 'symbolic': list(bad[:2])})
-        if not ok:
-            ck.violation('sha256-not-linked', '%s panics in a program that imports only this package: %s' % (bad[0], out.strip().splitlines()[0:1]), path)
+        env = bad[3]
+        path = ck.save_replay({'property': 'C17', 'kind': 'plain-main', 'program': MAIN, 'env': env, 'solver_model': {'other_package_registers_sha256': False}, 'symbolic': list(bad[:2])})
+        if not env:
+            ok, out = plain_main()
+            if not ok:
+                ck.violation('sha256-not-linked', '%s panics in a program that imports only this package: %s' % (bad[0], out.strip().splitlines()[0:1]), path)
+            else:
+                ck.inconclusive.append('panic path feasible in the model but the plain main runs: %s' % out[-200:])
         else:
-            ck.inconclusive.append('panic path feasible in the model but the plain main runs: %s' % out[-200:])
+            # a foreign platform cannot be executed here: the replay is the real build graph for that platform
+            has, out = deps_have_sha256(env)
+            if not has:
+                ck.violation('sha256-not-linked:' + bad[4], '%s: for %s the package\'s import closure (go list -deps) does not contain crypto/sha256 while the code asks crypto\'s registry for it' % (bad[0], bad[4]), path)
+            else:
+                ck.inconclusive.append('panic path feasible in the model for %s but go list -deps shows crypto/sha256' % bad[4])
+    if override_dep and not ck.violations:
+        ok, out = run_main(OVERRIDE_MAIN)
+        path = ck.save_replay({'property': 'C17', 'kind': 'override-main', 'program': OVERRIDE_MAIN, 'solver_model': {'other_package_overrides_sha256': True}})
+        if not ok and 'MISMATCH' in out:
+            ck.violation('sha256-from-registry', '%s takes its hash from crypto\'s mutable registry: a program in which another package re-registers crypto.SHA256 gets %s' % (override_dep[0], out.strip().splitlines()[-1:]), path)
+        else:
+            ck.inconclusive.append('registry dependence found symbolically but the override program agrees with RFC 9380: %s' % out[-200:])
     elif tier == 'thorough':
         ok, out = plain_main()
         ck.ground('C17.plain-main', 'auxiliary: a main importing only this package runs all three functions', ok, out[-200:] if not ok else '')
@@ -89,6 +185,13 @@ def run(tier, seed):
 
 
 def replay(path):
-    ok, out = plain_main()
+    import json
+    d = json.load(open(path))
+    if d.get('kind') == 'override-main':
+        ok, out = run_main(OVERRIDE_MAIN)
+    elif d.get('env'):
+        ok, out = deps_have_sha256(d['env'])
+    else:
+        ok, out = plain_main()
     print(out)
     return 0 if ok else 1
